@@ -32,6 +32,7 @@ def accessors(h):
         ("LineEnergy", "fluor_lines.dat", 1000.0, "line", LINE_GROUPS_E),
         ("RadRate", "radrate.dat", 1.0, "line", LINE_GROUPS_R),
         ("ElectronConfig", "kissel_pe.dat", 1.0, "kshell", ()),
+        ("ElectronConfig_Biggs", "comptonprofiles.dat", 1.0, "biggs", ()),
     ]
 
 
@@ -85,6 +86,8 @@ def work(item):
     fn, fname, scale, fam, excl = accessors(h)[acc_idx]
     recs = load_records(df, fname, scale, h)
     zmax = h.val["ZMAX"]
+    if fam == "biggs":
+        return work_biggs(st, config, L, h, df, zmax)
     if fam is None:
         for z in ZS:
             exp = expected_value(recs, z, None) if 1 <= z <= zmax else None
@@ -118,6 +121,33 @@ def work(item):
             exp = expected_value(recs, z, dn) if (dn is not None and 1 <= z <= zmax) else None
             got, err = L.call(fn, z, m)
             judge(st, config, fn, (z, m), exp, got, err, name)
+    return st
+
+
+def bind_biggs(L):
+    """exported (XRL_EXTERN in comptonprofiles.c) but not declared in the public headers"""
+    import ctypes
+    try:
+        f = L.dll.ElectronConfig_Biggs
+    except AttributeError:
+        return False
+    f.restype = ctypes.c_double
+    f.argtypes = [ctypes.c_int, ctypes.c_int, ctypes.c_void_p]
+    L.fn["ElectronConfig_Biggs"] = f
+    return True
+
+
+def work_biggs(st, config, L, h, df, zmax):
+    if not bind_biggs(L):
+        st.cls("biggs_accessor_absent")
+        return st
+    cp = df.compton_profiles()
+    for z in ZS:
+        occ = cp.get(z, {}).get("occ", []) if 1 <= z <= zmax else []
+        for s in macro_range([0, h.val.get("SHELLNUM_C", 29) - 1]):
+            exp = xrl.round11(occ[s]) if 0 <= s < len(occ) and occ[s] > 0 else None
+            got, err = L.call("ElectronConfig_Biggs", z, s)
+            judge(st, config, "ElectronConfig_Biggs", (z, s), exp, got, err, "shell%d" % s if 0 <= s < 40 else None)
     return st
 
 
@@ -170,6 +200,11 @@ def replay(ctx, rec):
     if "fn" not in case:
         return False
     fn = case["fn"]
+    if fn == "ElectronConfig_Biggs":
+        st = work((cfg, b["lib"], b["src"], [a[0] for a in accessors(h)].index(fn)))
+        bad = [v for v in st.violations if v["case"]["args"] == case["args"]]
+        print("replay:", bad[:1])
+        return not bad
     acc = [a for a in accessors(h) if a[0] == fn][0]
     recs = load_records(df, acc[1], acc[2], h)
     fams = families(h)
